@@ -863,11 +863,23 @@ impl rustc_driver::Callbacks for Cb {
         };
         let cx = Cx { tcx };
         let mut fns = Vec::new();
+        let mut consts: Vec<String> = Vec::new();
         let mut keys: Vec<_> = tcx.mir_keys(()).iter().copied().collect();
         keys.sort_by_key(|k| tcx.def_path_str(k.to_def_id()));
         for ldid in keys {
             let did = ldid.to_def_id();
             let kind = tcx.def_kind(did);
+            if matches!(kind, DefKind::InlineConst | DefKind::AnonConst | DefKind::Const { .. } | DefKind::AssocConst { .. }) {
+                // bodies of constants (e.g. `const { offset_of!(..) }`), evaluated symbolically by the rules
+                let r = std::panic::catch_unwind(std::panic::AssertUnwindSafe(|| {
+                    let body = tcx.mir_for_ctfe(did);
+                    cx.body_json(did, body)
+                }));
+                if let Ok(j) = r {
+                    consts.push(j);
+                }
+                continue;
+            }
             if !matches!(kind, DefKind::Fn | DefKind::AssocFn | DefKind::Closure) {
                 continue;
             }
@@ -898,13 +910,14 @@ impl rustc_driver::Callbacks for Cb {
         let mut doc = String::new();
         let _ = write!(
             doc,
-            "{{\"crate\":{},\"crate_type_test\":{},\"cfg\":[{}],\"debug_assertions\":{},\"overflow_checks\":{},{},\"fns\":[{}]}}\n",
+            "{{\"crate\":{},\"crate_type_test\":{},\"cfg\":[{}],\"debug_assertions\":{},\"overflow_checks\":{},{},\"consts\":[{}],\"fns\":[{}]}}\n",
             esc(&name),
             sess.is_test_crate(),
             cfgs.iter().map(|c| esc(c)).collect::<Vec<_>>().join(","),
             sess.opts.debug_assertions,
             sess.overflow_checks(),
             cx.items_json(),
+            consts.join(",\n"),
             fns.join(",\n")
         );
         std::fs::write(&out, doc).expect("factgen: cannot write fact file");
